@@ -298,7 +298,7 @@ func exchange(s *Sim, a, b *Node) {
 // TestC02Relay: the observer learns about two writers only through a relay, in
 // truncated multi-node deltas with entries of mixed sizes.
 func TestC02Relay(t *testing.T) {
-	vlib.SetRule("C02", "TestC02Relay", "directed relay generator: writers A and B publish bursts of 1-12 entries of mixed sizes (short and up to 72-byte values), deletions and compactions; relay R synchronises fully with both; observer O (small packet limit) talks to R only, a few exchanges at a time, so that it learns both writers from truncated multi-node deltas; same oracle as TestC02 after every delivery; non-trivial = some delta to O was truncated")
+	vlib.SetRule("C02", "TestC02Relay", "directed relay generator: writers A and B publish bursts of 1-12 entries of mixed sizes (short and up to 72-byte values), deletions and compactions, and once in 150 writer-rounds a burst of 250-330 entries (more pending entries of one node than any delta carries); relay R synchronises fully with both; observer O (small packet limit) talks to R only, a few exchanges at a time, so that it learns both writers from truncated multi-node deltas; same oracle as TestC02 after every delivery; non-trivial = some delta to O was truncated")
 	p := &Profile{Prop: "C02", Oracles: map[string]bool{"C02": true}, TinyPackets: true, LongVals: 5}
 	vlib.RunSync(t, "C02", func(c *vlib.Case) {
 		s := NewN(c, p, 4)
@@ -308,7 +308,7 @@ func TestC02Relay(t *testing.T) {
 				// now and then a writer publishes several hundred entries between two
 				// exchanges (an agent with many endpoints connecting, a long partition):
 				// more pending entries of one node than any one delta can carry
-				if c.Chance("bigBurst", 1, 10) {
+				if c.Chance("bigBurst", 1, 150) {
 					n := c.Int("bigBurstKeys", 250, 330)
 					for i := 0; i < n; i++ {
 						w.n.State.UpsertLocal(fmt.Sprintf("big%03d", i), fmt.Sprintf("r%d", round))
